@@ -212,6 +212,9 @@ class CoreEnforcer:
                     rm = self.rm_map[ptype]
                     rm.clear()
                     continue
+                if ptype in self.cond_rm_map:
+                    self.cond_rm_map[ptype].clear()
+                    continue
 
                 if len(assertion.tokens) <= 2 and len(assertion.params_tokens) == 0:
                     assertion.rm = default_role_manager.RoleManager(10)
@@ -339,6 +342,11 @@ class CoreEnforcer:
             rm.clear()
 
         self.model.build_role_links(self.rm_map)
+
+        for crm in self.cond_rm_map.values():
+            crm.clear()
+
+        self.model.build_conditional_role_links(self.cond_rm_map)
 
     def _build_incremental_role_links(self, op, ptype, rules):
         """maintains the role links of one role definition after rules were added to or removed from it: through its
